@@ -592,6 +592,16 @@ class MQWorld:
                     'exit_after', 'sources_timeout', 'outputs_timeout', 'mq_msgid_sync', 'mq_log'):
             if spec.get(key) is not None:
                 cfg[key] = spec[key]
+        ea = cfg.get('exit_after')
+        if isinstance(ea, str) and ea.startswith('@+'):
+            # '@+<ms>': an absolute wall-clock time <ms> after the virtual start of the run, written as the text forms
+            # the documentation allows (ISO with zone, or local 'yyyy-mm-dd hh:mm:ss.mmm')
+            import datetime as _dt
+            t = (EPOCH_NS + int(ea[2:]) * MS) / 1e9
+            if spec.get('exit_after_local'):
+                cfg['exit_after'] = '@' + _dt.datetime.fromtimestamp(t).strftime('%Y-%m-%d %H:%M:%S.%f')[:-3]
+            else:
+                cfg['exit_after'] = '@' + _dt.datetime.fromtimestamp(t, _dt.timezone.utc).isoformat()
         cfg['outputs_metrics'] = bool(spec.get('outputs_metrics', False))
         cfg['outputs_filter'] = bool(spec.get('outputs_filter', False))
         cfg.update(spec.get('extra_config') or {})
@@ -755,6 +765,15 @@ class MQWorld:
                     self.fired('delay_spike')
                 self.ev('fault', 'delay_spike', f['a'], f['b'], n)
             self._at(f, do)
+        elif kind == 'sock_error':
+            def do():
+                proc = self.live_proc(f['node'])
+                if proc is None or proc.exited:
+                    return
+                self.net.fail_next[proc] = f['op']
+                self.fired(f'sock_error_{f["op"]}')
+                self.ev('fault', 'sock_error', f['node'], f['op'])
+            self._at(f, do)
         elif kind == 'clock_skew':
             def do():
                 proc = self.live_proc(f['node'])
@@ -793,6 +812,16 @@ class MQWorld:
             self.census = {p.key: [repr(s) for s in self.net.open_sockets(p)]
                            for incs in self.procs.values() for p in incs}
             self.stop_flags = {p.key: self.stop_evts[p].is_set() for incs in self.procs.values() for p in incs}
+            # exit announcements (OOB, id -2) that were delivered to a socket but never read by its owner
+            self.unread_oob = {}
+            for sk in self.net.sockets:
+                if sk.owner is None or sk.closed or not sk.inq:
+                    continue
+                for parts, pipe in sk.inq:
+                    head = parts[0] if sk.type == 7 else (parts[1] if len(parts) > 1 else b'')
+                    if b'"mid":-2' in head:
+                        self.unread_oob.setdefault(sk.owner.key, set()).add('PULL' if sk.type == 7 else 'SUB')
+                        break
         finally:
             try:
                 self.sched.teardown()
